@@ -151,7 +151,22 @@ def pathOf? (src : Source) : Term → Option Path
 
 inductive Case where
   | exp (c : ExportCase)
+  | exp2 (c : ExportCase)
   | rx (c : RxCase)
+  | wire (w : WireCase)
+
+def peerCfgOf? : Term → Option PeerCfg
+  | .list [.atom "nbr", a, rasn, lasn, rid, rs, rrc, cl] => do
+      pure ⟨(← addrOf? a), (← nat32? rasn), (← nat32? lasn), (← nat32? rid), (← asBool? rs), (← asBool? rrc),
+            (← asOpt? nat32? cl)⟩
+  | _ => none
+
+def confedOf? : Term → Option (Option (Nat × List Nat))
+  | .atom "none" => some none
+  | .list (.atom "confed" :: id :: ms) => do
+      let id ← nat32? id
+      if id = 0 then none else pure (some (id, (← ms.mapM nat32?)))
+  | _ => none
 
 def caseOf? : Term → Option Case
   | .list [.atom "exp", ctx, sess, pol, src, path] => do
@@ -159,6 +174,29 @@ def caseOf? : Term → Option Case
       let src ← sourceOf? src
       let p ← pathOf? src path
       pure (.exp ⟨s, p⟩)
+  | .list [.atom "exp2", ctx, sess, pol, src, path] => do
+      let s ← sessOf? ctx pol sess
+      let src ← sourceOf? src
+      let p ← pathOf? src path
+      -- the route comes from a neighbour that is not stale yet; the RIB gives the path id 1
+      if src.kind = .peer ∧ !src.llgr ∧ p.pid = 1 then pure (.exp2 ⟨s, p⟩) else none
+  | .list [.atom "wire", .list [.atom "glob", asn, rid, confed, laddr], src, dst, first, nh, attrs] => do
+      let dst ← match dst with
+        | .atom "none" => some none
+        | t => (peerCfgOf? t).map some
+      let src ← peerCfgOf? src
+      let w : WireCase := ⟨(← nat32? asn), (← nat32? rid), (← confedOf? confed), (← addrOf? laddr), src, dst,
+                           (← asBool? first), (← nhOf? nh), (← attrsOf? attrs)⟩
+      -- the harness listens on 127.0.0.1 and speaks from distinct addresses of 127.0.0.0/8
+      let lo := fun (a : Addr) => match a with | .v4 n => n / 16777216 = 127 | _ => false
+      let okDst := match dst with
+        | some d => lo d.addr && d.addr != src.addr && d.addr != w.localAddr
+        | none => true
+      -- a router and neighbours that can open a session: AS numbers and BGP identifiers are not 0
+      let okNbr := fun (p : PeerCfg) => p.remoteAsn != 0 && p.rid != 0 && p.rid != w.rid
+      let okCfg := w.asn != 0 && w.rid != 0 && okNbr src && (match dst with | some d => okNbr d | none => true)
+      if okCfg && w.localAddr = .v4 2130706433 && lo src.addr && src.addr != w.localAddr && okDst &&
+         (match w.nh with | .v4 _ => true | _ => false) then pure (.wire w) else none
   | .list [.atom "rx", lasn, confed, rid, cluster, role, attrs] => do
       pure (.rx ⟨(← nat32? lasn), (← nat32? confed), (← nat32? rid), (← asOpt? nat32? cluster),
                   (← roleOf? role), (← attrsOf? attrs)⟩)
@@ -172,6 +210,35 @@ def obsOf? : Term → Option Obs
   | .atom "suppressed" => some .suppressed
   | .list [.atom "reach", pid, nh, as] => do pure (.reach (← asNat? pid) (← nhOptOf? nh) (← attrsOf? as))
   | .atom "other" => some .other
+  | _ => none
+
+def obs2T : Obs2 → Term
+  | .nothing => sym "nothing"
+  | .withdrawn => sym "withdrawn"
+  | .reach pid nh as => tag "reach" [nat pid, nhOptT nh, attrsT as]
+  | .other => sym "other"
+def obs2Of? : Term → Option Obs2
+  | .atom "nothing" => some .nothing
+  | .atom "withdrawn" => some .withdrawn
+  | .list [.atom "reach", pid, nh, as] => do pure (.reach (← asNat? pid) (← nhOptOf? nh) (← attrsOf? as))
+  | .atom "other" => some .other
+  | _ => none
+
+def twiceT (o : Obs × Obs2) : Term := tag "twice" [obsT o.1, obs2T o.2]
+def twiceOf? : Term → Option (Obs × Obs2)
+  | .list [.atom "twice", a, b] => do pure ((← obsOf? a), (← obs2Of? b))
+  | _ => none
+
+def wireObsT (o : WireObs) : Term :=
+  tag "wire" [(match o.installed with | some as => tag "installed" [attrsT as] | none => sym "absent"),
+              tag "back" [obsT o.back], tag "sent" [obsT o.sent]]
+def wireObsOf? : Term → Option WireObs
+  | .list [.atom "wire", inst, .list [.atom "back", b], .list [.atom "sent", s]] => do
+      let inst ← match inst with
+        | .atom "absent" => some none
+        | .list [.atom "installed", as] => (attrsOf? as).map some
+        | _ => none
+      pure ⟨inst, (← obsOf? b), (← obsOf? s)⟩
   | _ => none
 
 def installedT (b : Bool) : Term := tag "installed" [bool b]
